@@ -133,6 +133,7 @@ func c14Run(p c14Params) func() {
 			case c == 2:
 				mc.Log(Op{"busy", 10, false})
 				sock.Deliver(&knxnet.RoutingBusy{WaitTime: 10 * ms, Control: 1})
+				mc.Sleep(1 * ms) // the indication is taken in; the next operation falls into the 10 ms pause
 			case c == 3:
 				mc.Log(Op{"pause", 0, false})
 				mc.Sleep(1000 * ms)
